@@ -150,13 +150,13 @@ theorem amountSecondSign_tw (sg : Bytes) {s1 s2} (h : In T s1 s2) :
     (unfold amountSecondSign; (try simp +zetaDelta only [] at *) <;> (first | grind [In.setYear, In.cur, In.dy, In.errs, AtB.facts, Tw, toRange] | (simp_all; done) | (simp_all <;> grind [In.setYear, In.cur, In.dy, In.errs, AtB.facts, Tw, toRange])))
 grind_pattern amountSecondSign_tw => In T s1 s2, amountSecondSign (listEnv num cls) sg s1
 
-theorem amountRightCommodity_tw (c : Commodity) {s1 s2} (h : In T s1 s2) :
-    (amountRightCommodity (listEnv num cls) c s2).1 = (amountRightCommodity (listEnv num cls) c s1).1 ∧ In T (amountRightCommodity (listEnv num cls) c s1).2 (amountRightCommodity (listEnv num cls) c s2).2 := by
+theorem amountRightCommodity_tw (c : Commodity) (stop : Pos) {s1 s2} (h : In T s1 s2) :
+    (amountRightCommodity (listEnv num cls) c stop s2).1 = (amountRightCommodity (listEnv num cls) c stop s1).1 ∧ In T (amountRightCommodity (listEnv num cls) c stop s1).2 (amountRightCommodity (listEnv num cls) c stop s2).2 := by
   have hc := h.cur
   have hd := h.dy
-  fun_cases amountRightCommodity (listEnv num cls) c s1 <;>
+  fun_cases amountRightCommodity (listEnv num cls) c stop s1 <;>
     (unfold amountRightCommodity; (try simp +zetaDelta only [] at *) <;> (first | grind [In.setYear, In.cur, In.dy, In.errs, AtB.facts, Tw, toRange] | (simp_all; done) | (simp_all <;> grind [In.setYear, In.cur, In.dy, In.errs, AtB.facts, Tw, toRange])))
-grind_pattern amountRightCommodity_tw => In T s1 s2, amountRightCommodity (listEnv num cls) c s1
+grind_pattern amountRightCommodity_tw => In T s1 s2, amountRightCommodity (listEnv num cls) c stop s1
 
 theorem amountNumber_tw (sp : Pos) (sg : Bytes) (c : Commodity) (sb : Bool) {s1 s2} (h : In T s1 s2) :
     (amountNumber (listEnv num cls) sp sg c sb s2).1 = (amountNumber (listEnv num cls) sp sg c sb s1).1 ∧ In T (amountNumber (listEnv num cls) sp sg c sb s1).2 (amountNumber (listEnv num cls) sp sg c sb s2).2 := by
